@@ -2,6 +2,7 @@
 #include "../engine/vp_enum.hpp"
 
 #include <osmium/io/detail/opl_parser_functions.hpp>
+#include <osmium/io/detail/output_format.hpp>
 #include <osmium/osm/location.hpp>
 #include <osmium/osm/timestamp.hpp>
 #include <osmium/osm/types_from_string.hpp>
@@ -533,6 +534,89 @@ static void ints(uint64_t idx, vp::Local& L) {
     ++L.nontrivial;
 }
 
+// ------------------------------------------------------------------ integers to text (output_int of the XML and OPL writers) and back
+
+// index -> int64 value: +-(2^k + d) and +-(10^p + d) for d in -40..40, then a seeded walk through the whole range
+constexpr uint64_t IO_WIN = 81;
+constexpr uint64_t IO_POW2 = 64 * 2 * IO_WIN;
+constexpr uint64_t IO_POW10 = 19 * 2 * IO_WIN;
+constexpr uint64_t IO_WALK = 3000000;
+static bool int_out_value(uint64_t idx, int64_t& v) {
+    i128 x;
+    if (idx < IO_POW2) {
+        const uint64_t k = idx / (2 * IO_WIN), r = idx % (2 * IO_WIN);
+        x = (static_cast<i128>(1) << k) + static_cast<i128>(r % IO_WIN) - 40;
+        if (r >= IO_WIN) x = -x;
+    } else if (idx < IO_POW2 + IO_POW10) {
+        idx -= IO_POW2;
+        const uint64_t p = idx / (2 * IO_WIN), r = idx % (2 * IO_WIN);
+        x = 1;
+        for (uint64_t i = 0; i < p; ++i) x *= 10;
+        x += static_cast<i128>(r % IO_WIN) - 40;
+        if (r >= IO_WIN) x = -x;
+    } else {
+        idx -= IO_POW2 + IO_POW10;
+        // all digit counts get the same share: the magnitude is a 63-bit mix shifted right by (idx mod 63) bits
+        uint64_t z = (idx + 0x9E3779B97F4A7C15ULL) * 0xBF58476D1CE4E5B9ULL;
+        z ^= z >> 31;
+        z *= 0x94D049BB133111EBULL;
+        z ^= z >> 29;
+        x = static_cast<i128>((z >> 1) >> (idx % 63));
+        if (z & 1) x = -x;
+    }
+    // INT64_MIN is no object id (the parsers take it for strtoll's overflow mark) and the writers negate the value
+    if (x <= static_cast<i128>(std::numeric_limits<int64_t>::min()) || x > static_cast<i128>(std::numeric_limits<int64_t>::max())) return false;
+    v = static_cast<int64_t>(x);
+    return true;
+}
+struct IntOut : public osmium::io::detail::OutputBlock {
+    IntOut() : OutputBlock(osmium::memory::Buffer{}) {}
+    std::string format(int64_t v) {
+        m_out->assign("id=");
+        output_int(v);
+        return *m_out;
+    }
+};
+static std::string ref_decimal(int64_t v) {
+    i128 x = v;
+    const bool neg = x < 0;
+    if (neg) x = -x;
+    std::string d;
+    do {
+        d.insert(d.begin(), static_cast<char>('0' + static_cast<int>(x % 10)));
+        x /= 10;
+    } while (x > 0);
+    return (neg ? "-" : "") + d;
+}
+static void int_output(uint64_t idx, vp::Local& L) {
+    int64_t v;
+    if (!int_out_value(idx, v)) return;
+    static thread_local IntOut out;
+    const std::string text = out.format(v);
+    const std::string want = ref_decimal(v);
+    VP_CHECK(text == "id=" + want, "int-format", "output_int(" << want << ") appended " << q(text.substr(3)) << " (text so far was \"id=\", now " << q(text) << ")");
+    // and back through the parsers of the XML and OPL readers
+    if (v != std::numeric_limits<int64_t>::max()) {
+        int64_t back = 0;
+        try {
+            back = osmium::string_to_object_id(want.c_str());
+        } catch (const std::exception& e) {
+            vp::fail("int-rejects-valid", "string_to_object_id rejects " + q(want) + ": " + e.what());
+        }
+        VP_CHECK(back == v, "int-wrong-value", "string_to_object_id(" << q(want) << ") = " << back);
+        const char* p = want.c_str();
+        int64_t o = 0;
+        try {
+            o = osmium::io::detail::opl_parse_int<int64_t>(&p);
+        } catch (const std::exception& e) {
+            vp::fail("int-rejects-valid", "opl_parse_int<int64_t> rejects " + q(want) + ": " + e.what());
+        }
+        VP_CHECK(o == v && *p == '\0', "int-wrong-value", "opl_parse_int<int64_t>(" << q(want) << ") = " << o << ", " << (p - want.c_str()) << " characters consumed");
+    }
+    L.count("digits_" + std::to_string(want.size() - (v < 0 ? 1 : 0)));
+    ++L.nontrivial;
+}
+
 int main(int argc, char** argv) {
     vp::parse_args(argc, argv);
     std::vector<vp::Sub> subs;
@@ -647,11 +731,25 @@ int main(int argc, char** argv) {
         s.block = 64;
         subs.push_back(s);
     }
+    {
+        vp::Sub s;
+        s.name = "int_output";
+        s.domain = IO_POW2 + IO_POW10 + IO_WALK;
+        s.quick_stride = 7;
+        for (uint64_t i = 0; i < IO_POW2 + IO_POW10; ++i) s.always.push_back(i);
+        s.fn = int_output;
+        s.show = [](uint64_t i) {
+            int64_t v;
+            return int_out_value(i, v) ? "value " + ref_decimal(v) : std::string{"(outside the id range)"};
+        };
+        subs.push_back(s);
+    }
     return vp::run_enum(subs,
                         "enumeration: all 2^32 fixed-point coordinates and all 2^32 timestamps through format->parse (quick: seeded stride + boundary list); "
                         "all strings of length<=7 over {0 1 5 9 . - + e E space x}; seeded grammar-directed coordinate strings up to ~45 chars; every exponent "
                         "-100000..100000 x 16 mantissas; 18 years x months 0..13 x days 0..32 x h/m/s boundary values x 10 suffix forms; +-200000 s around "
-                        "both ends of the uint32 range; integer strings around every type boundary x prefixes x suffixes through all string_to_* and opl_parse_int<T>. "
+                        "both ends of the uint32 range; integer strings around every type boundary x prefixes x suffixes through all string_to_* and opl_parse_int<T>; "
+                        "output_int of the XML/OPL writers for +-(2^k+d), +-(10^p+d), d in -40..40, and a seeded walk with every digit count, compared with a decimal reference and parsed back. "
                         "Oracle: decimal-string / __int128 / proleptic-Gregorian reference written in the harness. non-trivial = every enumerated element "
                         "(each index is a distinct input)");
 }
